@@ -39,7 +39,7 @@ EXPLANATION = (
     "R14.1 (only scans write the visible health fields) applied here; R9.10 no describe_state implementation stores on self or "
     "mutates one of its attributes (the state handed to observe is computed afresh); R9.11 every store of Folder.visible_health_status "
     "is accompanied on every path by raising the flag Folder reports as `scanned_this_step` (the folder observation refreshes "
-    "only then). NOT decided: numerical equality of every leaf with the simulator's attribute at every step (needs "
+    "only then); R9.12 = C02's R2.2 (every Discrete leaf's value interval fits its space) applied here. NOT decided: numerical equality of every leaf with the simulator's attribute at every step (needs "
     "execution), whether describe_state is called after all of the step's effects, and the contents of untyped "
     "dictionaries (NetworkInterface.traffic / nmne) below their top-level key."
 )
@@ -912,6 +912,11 @@ def check(ctx: Ctx) -> None:
     from . import c14
     with ctx.borrowed({"R14.1": "R9.9"}):
         c14.r14_1(ctx)
+    # an encoding that leaves its declared range is not the documented encoding either (counts saturate at the top of their space,
+    # enum values fit): C02's interval rule applies here
+    from . import c02
+    with ctx.borrowed({"R2.2": "R9.12"}):
+        c02.r2_2(ctx, om)
     ctx.count("E6:describe_state functions evaluated", len(om.schema.evaluated))
 
 
